@@ -116,6 +116,9 @@ def _classes():
     class GumbelDistribution(ScipyDistribution):
         scipy_dist_name = "gumbel_r"
 
+    class ScipyGenGammaDistribution(ScipyDistribution):  # two shape parameters (a, c)
+        scipy_dist_name = "gengamma"
+
     return {
         "weibull": virocon.WeibullDistribution,
         "lognormal": virocon.LogNormalDistribution,
@@ -127,6 +130,7 @@ def _classes():
         "gamma": GammaDistribution,
         "rayleigh": RayleighDistribution,
         "gumbel_r": GumbelDistribution,
+        "sc_gengamma": ScipyGenGammaDistribution,
     }
 
 
@@ -141,7 +145,7 @@ def classes():
 
 
 SHIPPED = ["weibull", "lognormal", "normal", "lnnf", "expweib", "gengamma", "vonmises"]
-SCIPY_SUB = ["gamma", "rayleigh", "gumbel_r"]
+SCIPY_SUB = ["gamma", "rayleigh", "gumbel_r", "sc_gengamma"]
 ALL_FAMS = SHIPPED + SCIPY_SUB
 NONNEG = ["weibull", "lognormal", "lnnf", "expweib", "gengamma"]
 
@@ -157,6 +161,7 @@ KIND = {
     "gamma": {"a": "pos", "loc": "loc+", "scale": "pos"},
     "rayleigh": {"loc": "loc+", "scale": "pos"},
     "gumbel_r": {"loc": "loc", "scale": "pos"},
+    "sc_gengamma": {"a": "pos", "c": "pos", "loc": "loc+", "scale": "pos"},
 }
 
 # "regular" parameter ranges for model workloads (metocean-like magnitudes)
@@ -171,6 +176,7 @@ RANGE = {
     "gamma": {"a": (0.6, 8.0), "loc": (0.0, 1.0), "scale": (0.2, 4.0)},
     "rayleigh": {"loc": (0.0, 1.0), "scale": (0.3, 5.0)},
     "gumbel_r": {"loc": (-2.0, 8.0), "scale": (0.3, 3.0)},
+    "sc_gengamma": {"a": (0.6, 5.0), "c": (0.7, 3.0), "loc": (0.0, 1.0), "scale": (0.3, 4.0)},
 }
 
 # wide ranges for the univariate workloads (C05): several orders of magnitude
@@ -185,6 +191,7 @@ WIDE = {
     "gamma": {"a": (0.1, 30.0), "loc": (0.0, 5.0), "scale": (1e-2, 1e2)},
     "rayleigh": {"loc": (0.0, 5.0), "scale": (1e-2, 1e2)},
     "gumbel_r": {"loc": (-50.0, 50.0), "scale": (1e-2, 1e2)},
+    "sc_gengamma": {"a": (0.1, 30.0), "c": (0.2, 8.0), "loc": (0.0, 5.0), "scale": (1e-2, 1e2)},
 }
 
 
